@@ -458,3 +458,19 @@ def wire_text_encoding_maps_every_byte_to_itself():
         ensures("byte-decodes-to-its-own-code-point", bytes([b]).decode(enc) == chr(b))
         ensures("code-point-encodes-to-its-own-byte", chr(b).encode(enc) == bytes([b]))
     cover("reached-end", True)
+
+
+ALL_VERBS = [b"APING", b"AVERS", b"SVERS", b"CURCH", b"CHCUR", b"SFILE", b"FILES", b"STATU", b"STATV", b"STATP", b"STATQ", b"SPACK", b"PACKS",
+             b"GETWC", b"WCGET", b"SETWC", b"WCSET", b"REQWC", b"WCREQ", b"WCERR", b"REQRM", b"RMREQ", b"UPDTS", b"SUPDT", b"RFERR", b"<HELLO>1</HELLO>"]
+
+
+@harness(prop="C04", target="geckolib.driver.protocol.packet:GeckoPacketProtocolHandler.can_handle", name="frame_carrying_any_verb_is_claimed_by_the_packet_handler_only")
+def frame_carrying_any_verb_is_claimed_by_the_packet_handler_only():
+    """ground over the verb table: a framed packet whose payload is (or contains, after a few arbitrary bytes) any protocol verb is
+    accepted by the packet handler and by no verb handler -- their acceptance tests look at the START of a datagram only"""
+    for verb in ALL_VERBS:
+        for payload in (verb, b"x" + verb, verb + b"\x01\x02", b"\x00\x01" + verb + b"\xff"):
+            data = frame_spec(b"SPAx", b"IOSx", payload)
+            ensures("claimed-by-the-packet-handler-only", claimed_by(data) == ["packet"])
+    cover("reached-end", True)
+
